@@ -292,6 +292,13 @@ def judge_prepare(prop, op, impl, model, collect):
         if not ok or held != 0:
             return const(True, f"lock sections {ti} of the call nest or are left open (Disciplined = false); the model's are {tm}")
         return const(False, f"lock sections {ti} differ from the model's {tm} but never nest and are all closed")
+    if name in ("fits_file", "fits_nuniq_file", "st_fits_file", "msf", "msfk", "msfc", "fits_payload"):
+        # byte-exact ties: the property does not fix every byte (a keyword comment, the order of two cards, the
+        # value of MOCTOOL, a spare word of the moc-set header may change while every statement still holds).
+        # A difference is a correspondence that no longer checks; whether the PROPERTY fails on this input is decided
+        # by the reader-side ops and the direct checks of the same run (round trip, structure, listing, extract).
+        return const(False, "the bytes / words written by the implementation differ from the model's file (correspondence broken); "
+                            "the property itself is judged on this input by the round-trip / structure / listing checks of the same run")
     if name == "hintok":
         return const(True, "peek_last / size_hint advertised by the implementation are inconsistent with the ranges it then yields (hintOkB = false)")
     if name.startswith("l_"):
